@@ -14,8 +14,8 @@ from .c07 import ref_detect
 PID = "C11"
 RULE = (
     "cases = a server with 0..3 instances (concrete or wildcard instance id / major version on the service side, declared "
-    "eventgroups subset of {1,2,3}; announcer never started / started / stopped and restarted; single instances stopped; running instances in their initial-wait, non-cyclic main or cyclic main phase), "
-    "and 1..5 messages of 1..6 Subscribe / StopSubscribe entries built to match, nearly match (one field off, unknown "
+    "eventgroups subset of {1,2,3}, minor versions that do or do not coincide with the last word of an acknowledgement; announcer never started / started / stopped and restarted; single instances stopped; running instances in their initial-wait, non-cyclic main or cyclic main phase), "
+    "and 1..5 messages of 1..6 Subscribe / StopSubscribe entries (FindService entries in between, whose answers share the send queue) built to match, nearly match (one field off, unknown "
     "eventgroup) or not match, counter 0..15, TTL from {0,1,3,0xFFFFFE,inf}, zero/one/many endpoint options plus extra "
     "options, unicast or multicast, from 2 subscribers, listener decisions drawn per call, collection timeout 0 or not; "
     "entries matched by more than one configured instance are dropped (quantifier). SubscribeAck entries are decoded "
@@ -27,7 +27,7 @@ ASSUMPTIONS = [
     "a Nack in reply to a StopSubscribe that matches nothing is accepted but not required (the statement is silent)",
     "all messages arrive within one second and TTLs are >= 1 s, so no subscription expires inside a case",
 ]
-BUDGET = {"quick": {"examples": 8000, "shrink": 300}, "thorough": {"examples": 240000, "shrink": 2000}}
+BUDGET = {"quick": {"examples": 16000, "shrink": 300}, "thorough": {"examples": 480000, "shrink": 2000}}
 INF = 0xFFFFFF
 EPSETS = [[["10.0.0.2", 4000, 17]], [], [["2001:db8::3", 4001, 6]], [["10.0.0.2", 4000, 17], ["10.0.0.2", 4002, 17]]]
 
@@ -35,11 +35,17 @@ EPSETS = [[["10.0.0.2", 4000, 17]], [], [["2001:db8::3", 4001, 6]], [["10.0.0.2"
 @st.composite
 def _inst(draw):
     return dict(svc=draw(st.sampled_from([0x3000, 0x3000, 0x3001])), inst=draw(st.sampled_from([1, 2, 0xFFFF])), major=draw(st.sampled_from([1, 2, 0xFF])),
-                egs=draw(st.lists(st.sampled_from([1, 2, 3]), max_size=3, unique=True)), stopped=draw(st.sampled_from([False, False, False, True])))
+                egs=draw(st.lists(st.sampled_from([1, 2, 3]), max_size=3, unique=True)), stopped=draw(st.sampled_from([False, False, False, True])),
+                # minor versions that coincide with the last word of an acknowledgement ((counter << 16) | eventgroup) and others
+                minor=draw(st.sampled_from([0, 1, 1, 2, 3, 0x10001, 0xF0002, 7])))
 
 
 @st.composite
 def _entry(draw):
+    if draw(st.integers(0, 6)) == 0:
+        # a FindService entry between the Subscribe entries: its answer (an offer) shares the send queue with the acknowledgements
+        return dict(find=True, svc=draw(st.sampled_from([0x3000, 0x3000, 0x3001])), inst=draw(st.sampled_from([1, 2, 0xFFFF, 0xFFFF])), major=draw(st.sampled_from([1, 0xFF, 0xFF])),
+                    same=draw(st.booleans()))   # same: asks for the service of the Subscribe entry in front of it
     return dict(svc=draw(st.sampled_from([0x3000, 0x3000, 0x3001, 0x3002])), inst=draw(st.sampled_from([1, 1, 2, 3, 0xFFFF])), major=draw(st.sampled_from([1, 1, 2, 0xFF])),
                 eg=draw(st.sampled_from([1, 1, 2, 3, 4])), counter=draw(st.sampled_from([0, 0, 1, 15])), ttl=draw(st.sampled_from([1, 3, 3, 0, 0xFFFFFE, INF])),
                 eps=draw(st.integers(0, 3)), extra=draw(st.sampled_from([0, 0, 1])))
@@ -52,7 +58,30 @@ def _case(draw):
         msgs.append(dict(src=draw(st.integers(0, 1)), mc=draw(st.sampled_from([False, False, False, True])), dt=draw(st.sampled_from([0, 0, 0.001, 0.02, 0.1])),
                          reset=draw(st.sampled_from([False, False, False, True])),
                          entries=draw(st.lists(_entry(), min_size=1, max_size=6))))
-    return dict(insts=draw(st.lists(_inst(), max_size=3)), state=draw(st.sampled_from(["started", "started", "started", "never", "restarted", "stopped"])),
+    insts = draw(st.lists(_inst(), max_size=3))
+    # half of the entries are built from a configured instance: same service, its concrete ids, one of its eventgroups -
+    # and, where the numbers allow it, eventgroup and counter such that the acknowledgement's last word equals the
+    # instance's minor version; a FindService entry then asks for the instance of the entry in front of it
+    for m in msgs:
+        prev = None
+        for e in m["entries"]:
+            if e.get("find"):
+                if prev is not None and e.get("same"):
+                    e.update(svc=prev["svc"], inst=draw(st.sampled_from([prev["inst"], 0xFFFF])), major=draw(st.sampled_from([prev["major"], 0xFF])))
+                continue
+            prev = e
+            if insts and draw(st.booleans()):
+                i = draw(st.sampled_from(insts))
+                e["svc"] = i["svc"]
+                if i["inst"] != 0xFFFF:
+                    e["inst"] = i["inst"]
+                if i["major"] != 0xFF:
+                    e["major"] = i["major"]
+                if i["egs"]:
+                    e["eg"] = draw(st.sampled_from(i["egs"]))
+                    if (i["minor"] & 0xFFFF) in i["egs"] and (i["minor"] >> 16) < 16 and draw(st.booleans()):
+                        e["eg"], e["counter"] = i["minor"] & 0xFFFF, i["minor"] >> 16
+    return dict(insts=insts, state=draw(st.sampled_from(["started", "started", "started", "never", "restarted", "stopped"])),
                 coll=draw(st.sampled_from([0, 0, 0.005])), msgs=msgs, dec=draw(st.lists(st.booleans(), max_size=8)),
                 phase=draw(st.sampled_from(["main", "main", "initial-wait", "cyclic"])))
 
@@ -86,7 +115,7 @@ def run_case(case):
 
         objs = []
         for n, i in enumerate(insts):
-            o = sd.ServiceInstance(cfg.Service(i["svc"], i["inst"], i["major"], 0, eventgroups=frozenset(i["egs"])), ServerRec(sim, log, f"I{n}", decide), prot.announcer, tm)
+            o = sd.ServiceInstance(cfg.Service(i["svc"], i["inst"], i["major"], i.get("minor", 0), eventgroups=frozenset(i["egs"])), ServerRec(sim, log, f"I{n}", decide), prot.announcer, tm)
             prot.announcer.announce_service(o)
             objs.append(o)
         running = [False] * len(insts)
@@ -121,7 +150,7 @@ def run_case(case):
                 for k_ in [k_ for k_ in stored if k_[0] == src]:
                     stored.discard(k_)
                 feats["reboot"] += 1
-            entries = [e for e in m["entries"] if sum(1 for i in insts if _matches(i, e)) <= 1][:6]
+            entries = [e for e in m["entries"] if e.get("find") or sum(1 for i in insts if _matches(i, e)) <= 1][:6]
             if not entries and not carry_t:
                 continue
             wire_entries = []
@@ -132,6 +161,10 @@ def run_case(case):
             asked_expected = 0
             dec_snapshot = list(dec)
             for e in entries:
+                if e.get("find"):
+                    wire_entries.append({"t": "find", "svc": e["svc"], "inst": e["inst"], "major": e["major"], "minor": 0xFFFFFFFF})
+                    feats["find-in-message"] += 1
+                    continue
                 ttl = e["ttl"]
                 eps = EPSETS[e["eps"] % len(EPSETS)]
                 wire_entries.append({"t": "sub" if ttl else "stopsub", "svc": e["svc"], "inst": e["inst"], "major": e["major"], "eg": e["eg"],
@@ -227,8 +260,8 @@ def run_case(case):
                 extra[k] -= take
             extra = +extra
             require(not missing and not extra, "C11.ack-mismatch",
-                    lambda: f"message from {src} with entries {[(e['svc'], e['inst'], e['major'], e['eg'], e['counter'], e['ttl']) for e in entries]} against instances "
-                            f"{[(i['svc'], i['inst'], i['major'], i['egs'], 'running' if r else 'not running') for i, r in zip(insts, running)]}: "
+                    lambda: f"message from {src} with entries {[('find', e['svc'], e['inst'], e['major']) if e.get('find') else (e['svc'], e['inst'], e['major'], e['eg'], e['counter'], e['ttl']) for e in entries]} against instances "
+                            f"{[(i['svc'], i['inst'], i['major'], i.get('minor', 0), i['egs'], 'running' if r else 'not running') for i, r in zip(insts, running)]}: "
                             f"missing acks {dict(missing)}, unexpected acks {dict(extra)} (ack = service, instance, major, eventgroup, counter, ttl)")
             require(not others, "C11.other-entries", lambda: f"unexpected entries sent: {others[:2]}")
         require(not sim.loop.errors, "C11.loop-error", lambda: str(sim.loop.errors[:2]))
